@@ -56,3 +56,15 @@ t["jobs"].append(dict(name="ipv4all", mode="plain", run="^TestIPv4All$", shards=
 t["jobs"].append(fuzz_job("FuzzParseUint", 90))
 t["jobs"].append(fuzz_job("FuzzHex", 60))
 add("C15", "c15", q, t)
+
+# ---- C08 AES helpers -----------------------------------------------------------
+q, t = rapid_jobs(qshards=4, tshards=16, tscale=20)
+t["jobs"].append(fuzz_job("FuzzUnpad", 90))
+add("C08", "c08", q, t)
+
+# ---- C09 secret-based encryption ----------------------------------------------
+q, t = rapid_jobs(qshards=4, tshards=16, tscale=15)
+t["jobs"].append(dict(name="openssl", mode="plain", run="^TestOpenSSL$", shards=1, scale=10, timeout=600))
+t["jobs"].append(fuzz_job("FuzzDecrypt", 120))
+add("C09", "c09", q, t)
+ASSUMPTIONS["C09"] = ["the harness' own EVP_BytesToKey(MD5,1)/AES-256-CBC/CTR/GCM reference (written from the OpenSSL definition on top of crypto/*) is correct; it is itself cross-checked against /usr/bin/openssl in the thorough tier when the binary is present"]
